@@ -19,6 +19,8 @@ type runCtx struct {
 	n       int
 	outDir  string
 	replay  string
+	only    string // "idx:cfg": run just this history (replays)
+	steps   int    // truncate histories to this many batches (0 = generator default)
 	stats   map[string]any
 	samples []any
 }
@@ -57,13 +59,15 @@ func main() {
 	n := fs.Int("n", 0, "number of cases (0 = tier default)")
 	out := fs.String("out", ".", "output directory for cases_*.v and stats.json")
 	replay := fs.String("replay", "", "replay file")
+	only := fs.String("only", "", "run only the history idx:cfg")
+	steps := fs.Int("steps", 0, "truncate histories to this many batches")
 	fs.Parse(os.Args[2:])
 	fn, ok := subcmds[sub]
 	if !ok {
 		fmt.Fprintln(os.Stderr, "unknown sub-command", sub)
 		os.Exit(2)
 	}
-	rc := &runCtx{seed: *seed, tier: *tier, n: *n, outDir: *out, replay: *replay, stats: map[string]any{}}
+	rc := &runCtx{seed: *seed, tier: *tier, n: *n, outDir: *out, replay: *replay, only: *only, steps: *steps, stats: map[string]any{}}
 	if err := fn(rc); err != nil {
 		fmt.Fprintln(os.Stderr, "harness error:", err)
 		os.Exit(3)
